@@ -9,7 +9,7 @@ path in the vocabulary of `NixModel/Pure/CalibPrim.lean`:
   applyPolynomialBody   util.apply_polynomial           (Stmt: subOrigin, `if`, polyval) with its parameters bound to
                                                          the roles of the arguments of the call in _read_data
   viewReadBody          DataView._read_data             (List VStmt)
-  coeffSetterBody / originSetterBody                    the two calibration setters (SStmt: `if`, delItem, checkFlat,
+  coeffSetterBody / originSetterBody                    the two calibration setters (SStmt: `if`, delItem, raiseIf,
                                                          writeData, checkNumber, setAttr, stampIfAuto), with the HDF5 names
   coeffGetterName / originGetterName                    the names the getters read
   getitemReads / arrayReads / readDirectReads / iterReads    DataSet.__getitem__ / __array__ / read_direct / __iter__
@@ -429,25 +429,6 @@ def _is_stamp_if(st, me):
             and _self_attr(b.value.func, me, "force_updated_at"))
 
 
-def _is_flat_check(st, arg):
-    """if np.ndim(<arg>) != 1: raise ValueError(...)"""
-    if not (isinstance(st, ast.If) and not st.orelse and len(st.body) == 1 and isinstance(st.body[0], ast.Raise)):
-        return False
-    t = st.test
-    if not (isinstance(t, ast.Compare) and len(t.ops) == 1 and isinstance(t.ops[0], ast.NotEq)
-            and isinstance(t.comparators[0], ast.Constant) and t.comparators[0].value == 1
-            and not isinstance(t.comparators[0].value, bool)):
-        return False
-    c = t.left
-    if not (isinstance(c, ast.Call) and _dotted(c.func) == "np.ndim" and len(c.args) == 1 and not c.keywords
-            and _is_name(c.args[0], arg)):
-        return False
-    exc = st.body[0].exc
-    if isinstance(exc, ast.Call):
-        exc = exc.func
-    return _is_name(exc, "ValueError") and st.body[0].cause is None
-
-
 def getters_setters(repo):
     rel = "nixio/data_array.py"
     cls = _class(_parse(repo, rel), "DataArray", rel)
@@ -493,13 +474,17 @@ def getters_setters(repo):
             return "(.not %s)" % scond(node.operand)
         if isinstance(node, ast.Compare) and len(node.ops) == 1:
             l, r = node.left, node.comparators[0]
-            if _is_name(l, arg) and isinstance(node.ops[0], ast.Is) and isinstance(r, ast.Constant) \
+            if _is_name(l, arg) and isinstance(node.ops[0], (ast.Is, ast.IsNot)) and isinstance(r, ast.Constant) \
                     and r.value is None:
-                return ".argIsNone"
-            if isinstance(node.ops[0], ast.Eq) and isinstance(l, ast.Call) and _is_name(l.func, "len") \
+                return ".argIsNone" if isinstance(node.ops[0], ast.Is) else "(.not .argIsNone)"
+            if isinstance(node.ops[0], (ast.Eq, ast.NotEq)) and isinstance(l, ast.Call) and _is_name(l.func, "len") \
                     and len(l.args) == 1 and _is_name(l.args[0], arg) and isinstance(r, ast.Constant) \
                     and r.value == 0 and not isinstance(r.value, bool):
-                return ".argLenZero"
+                return ".argLenZero" if isinstance(node.ops[0], ast.Eq) else "(.not .argLenZero)"
+            if isinstance(node.ops[0], ast.NotEq) and isinstance(l, ast.Call) and _dotted(l.func) == "np.ndim" \
+                    and len(l.args) == 1 and not l.keywords and _is_name(l.args[0], arg) \
+                    and isinstance(r, ast.Constant) and r.value == 1 and not isinstance(r.value, bool):
+                return ".argNotFlat"
         a = _h5call(node, me, "has_data")
         if a is not None and len(a) == 1 and _strconst(a[0]) is not None:
             return "(.hasData %s)" % lean_str(_strconst(a[0]))
@@ -511,9 +496,16 @@ def getters_setters(repo):
             if _is_stamp_if(st, me):
                 out.append(".stampIfAuto")
                 continue
-            if _is_flat_check(st, arg):
-                out.append(".checkFlat")
-                continue
+            # if <cond>: raise ValueError(...) / TypeError(...)
+            if isinstance(st, ast.If) and not st.orelse and len(st.body) == 1 and isinstance(st.body[0], ast.Raise) \
+                    and st.body[0].cause is None:
+                exc = st.body[0].exc
+                if isinstance(exc, ast.Call):
+                    exc = exc.func
+                if isinstance(exc, ast.Name) and exc.id in ("ValueError", "TypeError"):
+                    out.append("(.raiseIf %s %s)" % (scond(st.test), {"ValueError": ".valueError",
+                                                                     "TypeError": ".typeError"}[exc.id]))
+                    continue
             if isinstance(st, ast.If):
                 out.append("(.ite %s %s %s)" % (scond(st.test), sblock(st.body, env), sblock(st.orelse, env)))
                 continue
